@@ -681,6 +681,153 @@ func c18DrawRefs(t *rapid.T, label string) []xpv1.TypedReference {
 	return out
 }
 
+// Tiny plural alphabet: short plurals whose concatenations collide ({db,
+// instances} vs {dbinstances}, {ab,c} vs {a,bc} vs {abc} vs {a,b,c}), are
+// prefixes of each other, or are identical across groups. Any rendering that
+// keys groups by something coarser than their exact plural set shows up here.
+var (
+	c18TinyGroups   = []string{"sql.example.org", "rds.example.org", "x.example.org", "y.example.org"}
+	c18TinyPlurals  = []string{"a", "b", "c", "ab", "bc", "abc", "db", "instances", "dbinstances"}
+	c18TinyFamilies = [][][]string{
+		{{"db", "instances"}, {"dbinstances"}, {"db"}, {"instances", "db"}},
+		{{"ab", "c"}, {"a", "bc"}, {"abc"}, {"a", "b", "c"}, {"ab", "c"}},
+		{{"a", "b"}, {"ab"}, {"a"}, {"b", "a"}},
+		{{"b", "c"}, {"bc"}, {"b"}, {"abc"}},
+	}
+)
+
+// c18DrawTinyPairs draws the (group, plural) pairs of 2-4 API groups.
+func c18DrawTinyPairs(t *rapid.T) [][2]string {
+	groups := c18Subset(t, "tinygroups", c18TinyGroups, 2, 4)
+	fam := rapid.SampledFrom(c18TinyFamilies).Draw(t, "tinyfamily")
+	var out [][2]string
+	for _, g := range groups {
+		var plurals []string
+		if rapid.IntRange(0, 2).Draw(t, "tinyfree") == 0 {
+			plurals = c18Subset(t, "tinyplurals", c18TinyPlurals, 1, 3)
+		} else {
+			plurals = rapid.SampledFrom(fam).Draw(t, "tinyset")
+		}
+		for _, p := range plurals {
+			out = append(out, [2]string{g, p})
+		}
+	}
+	return out
+}
+
+func c18PairRefs(pairs [][2]string) []xpv1.TypedReference {
+	var out []xpv1.TypedReference
+	for _, gp := range pairs {
+		out = append(out, xpv1.TypedReference{APIVersion: "apiextensions.k8s.io/v1", Kind: "CustomResourceDefinition", Name: gp[1] + "." + gp[0]})
+	}
+	return out
+}
+
+// c18PluralClasses classifies how the plural sets of the groups relate.
+func c18PluralClasses(pairs [][2]string) []string {
+	sets := map[string]map[string]bool{}
+	for _, gp := range pairs {
+		if sets[gp[0]] == nil {
+			sets[gp[0]] = map[string]bool{}
+		}
+		sets[gp[0]][gp[1]] = true
+	}
+	groups := make([]string, 0, len(sets))
+	for g := range sets {
+		groups = append(groups, g)
+	}
+	sort.Strings(groups)
+	var concats func(rest []string, prefix string, out map[string]bool)
+	concats = func(rest []string, prefix string, out map[string]bool) {
+		if len(rest) == 0 {
+			out[prefix] = true
+			return
+		}
+		for i := range rest {
+			next := append(append([]string{}, rest[:i]...), rest[i+1:]...)
+			concats(next, prefix+rest[i], out)
+		}
+	}
+	seen := map[string]bool{}
+	for i := 0; i < len(groups); i++ {
+		for j := i + 1; j < len(groups); j++ {
+			a, b := c18Sorted(sets[groups[i]]), c18Sorted(sets[groups[j]])
+			if strings.Join(a, ",") == strings.Join(b, ",") {
+				seen["crd-groups:identical-plural-sets"] = true
+				continue
+			}
+			ca, cb := map[string]bool{}, map[string]bool{}
+			concats(a, "", ca)
+			concats(b, "", cb)
+			collide := false
+			for k := range ca {
+				if cb[k] {
+					collide = true
+				}
+			}
+			sa, sb := strings.Join(a, ""), strings.Join(b, "")
+			switch {
+			case collide:
+				seen["crd-groups:concatenation-collision"] = true
+			case strings.HasPrefix(sa, sb) || strings.HasPrefix(sb, sa):
+				seen["crd-groups:prefix-relation"] = true
+			default:
+				seen["crd-groups:unrelated-plural-sets"] = true
+			}
+		}
+	}
+	return c18Sorted(seen)
+}
+
+// c18CRDRules spells the documented shape of CRD-derived access out as
+// single-group pseudo-rules: the resource and its status (any verb), and for
+// the system role the finalizers of the group's resources (update).
+func c18CRDRules(pairs [][2]string, verbs []string, finalizers bool) []rbacv1.PolicyRule {
+	var out []rbacv1.PolicyRule
+	for _, gp := range pairs {
+		out = append(out, rbacv1.PolicyRule{APIGroups: []string{gp[0]}, Resources: []string{gp[1], gp[1] + "/status"}, Verbs: verbs})
+		if finalizers {
+			out = append(out, rbacv1.PolicyRule{APIGroups: []string{gp[0]}, Resources: []string{"*/finalizers"}, Verbs: []string{"update"}})
+		}
+	}
+	return out
+}
+
+// c18CheckProviderRole compares one rendered provider role with the (group,
+// plural) pairs its CRDs define, on the whole request universe. Rules are
+// evaluated as the authorizer does (every APIGroup x every Resource of a rule),
+// never compared by shape.
+func c18CheckProviderRole(name string, rules []rbacv1.PolicyRule, pairs [][2]string, extra ...[]rbacv1.PolicyRule) string {
+	var upper, lower []rbacv1.PolicyRule
+	what := ""
+	switch {
+	case strings.HasSuffix(name, ":aggregate-to-edit"):
+		upper, lower, what = c18CRDRules(pairs, []string{"*"}, false), c18CRDRules(pairs, []string{"*"}, false), "edit"
+	case strings.HasSuffix(name, ":aggregate-to-view"):
+		upper, lower, what = c18CRDRules(pairs, []string{"get", "list", "watch"}, false), c18CRDRules(pairs, []string{"get", "list", "watch"}, false), "view"
+	case strings.HasSuffix(name, ":system"):
+		upper, lower, what = c18CRDRules(pairs, []string{"*"}, true), c18CRDRules(pairs, []string{"get"}, false), "system"
+		upper = append(upper, c18Baseline...)
+		for _, e := range extra {
+			upper = append(upper, e...)
+		}
+	default:
+		return fmt.Sprintf("unexpected provider role %q", name)
+	}
+	universe := c18Universe(rules, upper)
+	for _, a := range universe { // grants beyond the defined pairs are reported first
+		if c18RulesAllow(a, rules) && !c18RulesAllow(a, upper) {
+			return fmt.Sprintf("%s role %s allows %s, but no CRD the revision (or a same-registry-and-org family member) owns defines that group/resource pair\ndefined (group, plural) pairs: %v\nrole rules: %s", what, name, a, pairs, verifkit.JSON(rules))
+		}
+	}
+	for _, a := range universe {
+		if !c18RulesAllow(a, rules) && c18RulesAllow(a, lower) {
+			return fmt.Sprintf("%s role %s does not allow %s on a resource an owned CRD defines\ndefined (group, plural) pairs: %v\nrole rules: %s", what, name, a, pairs, verifkit.JSON(rules))
+		}
+	}
+	return ""
+}
+
 // c18DefinedByCRDRefs is the oracle's reading of an object reference list: the
 // (group, plural) pairs of the references that are CustomResourceDefinitions
 // of the apiextensions.k8s.io group.
@@ -715,6 +862,7 @@ type c18Scenario struct {
 	Target          c18Rev
 	Siblings        []c18Rev
 	Stale           bool // a system role from an earlier reconcile exists, with other rules
+	Tiny            bool // CRDs over the tiny plural alphabet, spread over the target and its siblings
 }
 
 func c18DrawScenario(t *rapid.T) c18Scenario {
@@ -751,6 +899,41 @@ func c18DrawScenario(t *rapid.T) c18Scenario {
 		sc.Siblings = append(sc.Siblings, sb)
 	}
 	sc.Stale = rapid.IntRange(0, 3).Draw(t, "stale") == 0
+	sc.Tiny = rapid.IntRange(0, 2).Draw(t, "tiny") == 0
+	if sc.Tiny {
+		// Family members that really count: same family, same org.
+		for i := range sc.Siblings {
+			if rapid.Bool().Draw(t, "tinymember") {
+				if sc.Target.Family == "" {
+					sc.Target.Family = "family-acme"
+				}
+				if sc.Target.Pkg.IsMalformed {
+					sc.Target.Pkg = c18Pkg{Org: "acme", Repo: "provider-a", Tag: ":v1.0.0"}
+				}
+				sc.Siblings[i].Family = sc.Target.Family
+				sc.Siblings[i].Pkg = sc.Target.Pkg
+				sc.Siblings[i].Pkg.Repo = "provider-b"
+			}
+		}
+		owners := make([][][2]string, 1+len(sc.Siblings))
+		for _, gp := range c18DrawTinyPairs(t) {
+			o := rapid.IntRange(0, len(sc.Siblings)).Draw(t, "tinyowner")
+			owners[o] = append(owners[o], gp)
+		}
+		keep := func(refs []xpv1.TypedReference) []xpv1.TypedReference { // non-CRD references stay
+			var out []xpv1.TypedReference
+			for _, r := range refs {
+				if len(c18DefinedByCRDRefs([]xpv1.TypedReference{r})) == 0 {
+					out = append(out, r)
+				}
+			}
+			return out
+		}
+		sc.Target.Refs = append(keep(sc.Target.Refs), c18PairRefs(owners[0])...)
+		for i := range sc.Siblings {
+			sc.Siblings[i].Refs = append(keep(sc.Siblings[i].Refs), c18PairRefs(owners[i+1])...)
+		}
+	}
 	return sc
 }
 
@@ -781,6 +964,8 @@ type c18Outcome struct {
 	Uncovered    *c18Attr
 	CodeRejected int
 	Labels       []string
+	Pairs        [][2]string
+	RolesChecked int
 }
 
 func c18RunScenario(sc c18Scenario) (out c18Outcome) {
@@ -869,8 +1054,10 @@ func c18RunScenario(sc c18Scenario) (out c18Outcome) {
 	// (2) what the system role allows is within owned + same-org family CRDs,
 	// the baseline and the (covered) requests.
 	var owned []rbacv1.PolicyRule // pseudo-rules spelling out the allowed CRD-derived access
+	var pairs [][2]string         // (group, plural) pairs of owned and counted family CRDs
 	addOwned := func(refs []xpv1.TypedReference) int {
 		d := c18DefinedByCRDRefs(refs)
+		pairs = append(pairs, d...)
 		for _, gp := range d {
 			owned = append(owned,
 				rbacv1.PolicyRule{APIGroups: []string{gp[0]}, Resources: []string{gp[1], gp[1] + "/status"}, Verbs: []string{"*"}},
@@ -890,6 +1077,27 @@ func c18RunScenario(sc c18Scenario) (out c18Outcome) {
 				out.Labels = append(out.Labels, "sibling:same-family-same-org-with-crds")
 			}
 		}
+	}
+	out.Pairs = pairs
+	// (2b) every role applied for the revision (edit, view, system) grants CRD
+	// access on exactly the defined (group, plural) pairs.
+	for _, w := range writes {
+		if w.Key.Group != rbacv1.GroupName || w.Key.Kind != "ClusterRole" || w.Err != "" || w.DryRun || w.After == nil {
+			continue
+		}
+		cr := &rbacv1.ClusterRole{}
+		if err := runtime.DefaultUnstructuredConverter.FromUnstructured(w.After, cr); err != nil {
+			panic(err)
+		}
+		if !strings.HasPrefix(cr.GetName(), "crossplane:provider:"+sc.Target.Name+":") {
+			out.Violation = fmt.Sprintf("the reconcile of %s wrote ClusterRole %q", sc.Target.Name, cr.GetName())
+			return out
+		}
+		if v := c18CheckProviderRole(cr.GetName(), cr.Rules, pairs, sc.Requests); v != "" {
+			out.Violation = v
+			return out
+		}
+		out.RolesChecked++
 	}
 	for _, w := range sysWrites {
 		cr := &rbacv1.ClusterRole{}
@@ -935,6 +1143,14 @@ func TestVerifC18Reconcile(t *testing.T) {
 		for _, l := range out.Labels {
 			rec.Label(l)
 		}
+		if out.RolesChecked > 0 {
+			for _, l := range c18PluralClasses(out.Pairs) {
+				rec.Label("reconcile:" + l)
+			}
+		}
+		if sc.Tiny {
+			rec.Label("tiny-plural-alphabet")
+		}
 		grants := c18GrantsAnything(sc.Requests)
 		switch {
 		case out.RoleWrites > 0 && grants:
@@ -960,6 +1176,54 @@ func TestVerifC18Reconcile(t *testing.T) {
 		if out.RoleWrites > 0 || (out.Uncovered != nil && grants) {
 			rec.NonTrivial(verifkit.JSON(sc), func() any {
 				return map[string]any{"scenario": sc, "roleWrites": out.RoleWrites, "systemRules": out.SystemRules}
+			})
+		}
+	})
+}
+
+// RenderClusterRoles / DefinedResources on their own: the edit, view and system
+// roles rendered for a set of CRD references grant CRD access on exactly the
+// (group, plural) pairs those CRDs define (+status; system: +*/finalizers update
+// within the groups, + baseline, + the revision's permission requests).
+func TestVerifC18RenderRoles(t *testing.T) {
+	rec := verifkit.New(t, "C18", "CRD references of 2-4 API groups over a tiny plural alphabet (a,b,c,ab,bc,abc,db,instances,dbinstances; designed concatenation collisions, prefixes, identical sets) or the standard names, in shuffled order, optionally with non-CRD references and permission requests; DefinedResources + RenderClusterRoles; every role compared with the defined pairs on the whole request universe; non-trivial = >=2 groups; distinct=(refs,requests)")
+	rapid.Check(t, func(t *rapid.T) {
+		var refs []xpv1.TypedReference
+		if rapid.IntRange(0, 4).Draw(t, "standard") == 0 {
+			refs = append(c18DrawRefs(t, "refs"), c18DrawRefs(t, "morerefs")...)
+		} else {
+			refs = c18PairRefs(c18DrawTinyPairs(t))
+			if rapid.IntRange(0, 3).Draw(t, "withother") == 0 {
+				refs = append(refs, rapid.SampledFrom(c18OtherRef).Draw(t, "other"))
+			}
+		}
+		if len(refs) > 1 {
+			refs = rapid.Permutation(refs).Draw(t, "order")
+		}
+		var requests []rbacv1.PolicyRule
+		if rapid.IntRange(0, 3).Draw(t, "withrequests") == 0 {
+			requests = []rbacv1.PolicyRule{c18Rule(t, false)}
+		}
+		rec.Eval()
+		pairs := c18DefinedByCRDRefs(refs)
+		pr := &pkgv1.ProviderRevision{ObjectMeta: metav1.ObjectMeta{Name: "provider-a-rev1", UID: "uid-pr"}}
+		pr.Status.PermissionRequests = requests
+		rendered := RenderClusterRoles(pr, DefinedResources(refs))
+		if len(pairs) > 0 && len(rendered) != 3 {
+			t.Fatalf("RenderClusterRoles returned %d roles for %d defined resources", len(rendered), len(pairs))
+		}
+		for _, cr := range rendered {
+			if v := c18CheckProviderRole(cr.GetName(), cr.Rules, pairs, requests); v != "" {
+				t.Fatalf("%s\nreferences: %s", v, verifkit.JSON(refs))
+			}
+		}
+		classes := c18PluralClasses(pairs)
+		for _, l := range classes {
+			rec.Label("render:" + l)
+		}
+		if len(classes) > 0 {
+			rec.NonTrivial(verifkit.JSON([]any{refs, requests}), func() any {
+				return map[string]any{"refs": refs, "requests": requests, "classes": classes}
 			})
 		}
 	})
